@@ -30,7 +30,7 @@ func (eng) CoqRun(mode string) string      { return "Check_ds.run" }
 func (eng) Rule(mode string) string {
 	return "search: every (n<=N0, target = each element, each gap, below, above) exhaustively for int slices and for table ranges, plus random large; " +
 		"pset: persistent histories over a pool of set values (NewSet(cap) with spare capacity, SetOf, Added/Without/Diff from any member, in-place Add on any member), every member observed (Slice, All, Size, Has over the universe) at random points and at the end; heap/ppq/ziptree/cache/set/smap: random histories of 1..60 ops over small key/priority pools (duplicates, prefix-related keys, equal priorities, empty structure reached by draining); " +
-		"merge/mergesorted: 0..6 sorted iterators incl. empty ones, shared keys, exact duplicates. Non-trivial: history with >= 4 ops that reads at least once from a non-empty structure (search: n >= 2)."
+		"iterator values (ZipTree.AscendPrefix, Set.All, SortedMap.All) are obtained once and ranged several times: early breaks first, mutations in between, a complete pass last; merge/mergesorted: 0..6 sorted iterators incl. empty ones, shared keys, exact duplicates. Non-trivial: history with >= 4 ops that reads at least once from a non-empty structure (search: n >= 2)."
 }
 
 // generic op: kind + small payload
@@ -183,8 +183,25 @@ func genZip(r *hx.Rand) *hx.Case {
 			ops = append(ops, op{K: "get", A: genKey(r)})
 		case x < 9:
 			ops = append(ops, op{K: "ascend", A: genKey(r)})
-		default:
+		case x == 9 && r.Bool():
 			ops = append(ops, op{K: "ascendn", A: genKey(r), N: uint64(r.Intn(4))})
+		default:
+			// one iterator value ranged several times: early breaks first, Puts in between, a complete pass last
+			p := genKey(r)
+			if r.Bool() {
+				p = p[:min(len(p), r.Intn(2))]
+			}
+			ops = append(ops, op{K: "seq", A: p})
+			for j := r.Range(1, 3); j > 0; j-- {
+				ops = append(ops, op{K: "range", N: 1000, M: uint64(r.Range(1, 4))})
+				if r.Chance(1, 3) {
+					ops = append(ops, op{K: "put", A: genKey(r), B: r.Bytes(r.Intn(3)), N: uint64(r.Intn(6))})
+				}
+			}
+			ops = append(ops, op{K: "range", N: 1000, M: 0})
+		}
+		if r.Chance(1, 10) { // range some older iterator again
+			ops = append(ops, op{K: "range", N: r.U64() % 1000, M: uint64(r.Intn(4))})
 		}
 	}
 	ops = append(ops, op{K: "ascend", A: []byte{}})
@@ -283,6 +300,10 @@ func genPSet(r *hx.Rand) *hx.Case {
 			ops = append(ops, op{K: "new", N: uint64(hx.Pick(r, []int{0, 1, 3, 8, 100}))})
 		case x == 16:
 			ops = append(ops, op{K: "of", L: genElems(r, 4)})
+		case x == 17:
+			ops = append(ops, op{K: "seq", N: r.U64() % 64}, op{K: "range", N: 1000, M: uint64(r.Range(1, 3))})
+		case x == 18:
+			ops = append(ops, op{K: "range", N: r.U64() % 1000, M: uint64(r.Intn(3))})
 		default:
 			ops = append(ops, op{K: "obs"})
 		}
@@ -306,7 +327,16 @@ func genSMap(r *hx.Rand) *hx.Case {
 			ops = append(ops, op{K: "has", A: genKey(r)})
 		case x == 9:
 			ops = append(ops, op{K: hx.Pick(r, []string{"keys", "values", "size"})})
+		case x == 10:
+			ops = append(ops, op{K: "seq"}, op{K: "range", N: 1000, M: uint64(r.Range(1, 3))})
+			if r.Bool() {
+				ops = append(ops, op{K: "set", A: genKey(r), N: uint64(r.Intn(100))})
+			}
+			ops = append(ops, op{K: "range", N: 1000, M: 0})
 		default:
+			if r.Chance(1, 4) {
+				ops = append(ops, op{K: "range", N: r.U64() % 1000, M: uint64(r.Intn(3))})
+			}
 			ops = append(ops, op{K: "all"})
 		}
 	}
@@ -711,6 +741,8 @@ func (eng) execute(mode string, c *hx.Case) (*hx.Result, error) {
 	case "zip":
 		t := ziptree.New()
 		replaced := 0
+		var zseqs []iter.Seq[*ziptree.Node]
+		reranged := false
 		for _, o := range ops {
 			switch o.K {
 			case "put":
@@ -729,6 +761,31 @@ func (eng) execute(mode string, c *hx.Case) (*hx.Result, error) {
 				} else {
 					add(fmt.Sprintf("ZGet %s (@None (bytes * bytes))", hx.CoqBytes(o.A)), nil)
 				}
+			case "seq":
+				zseqs = append(zseqs, t.AscendPrefix(slices.Clone(o.A)))
+				add("ZSeq "+hx.CoqBytes(o.A), nil)
+			case "range":
+				if len(zseqs) == 0 {
+					continue
+				}
+				i := len(zseqs) - 1 // N = 1000: the newest iterator
+				if o.N != 1000 {
+					i = int(o.N % uint64(len(zseqs)))
+				}
+				var items []string
+				var ob [][2][]byte
+				for n := range zseqs[i] {
+					items = append(items, hx.CoqPair(hx.CoqBytes(n.Key), hx.CoqBytes(n.Value)))
+					ob = append(ob, [2][]byte{n.Key, n.Value})
+					if o.M > 0 && uint64(len(items)) >= o.M {
+						break
+					}
+				}
+				if len(items) > 0 {
+					reads++
+				}
+				reranged = true
+				add(fmt.Sprintf("ZRange %d %d %s", i, o.M, hx.CoqList(items, "bytes * bytes")), ob)
 			case "ascend", "ascendn":
 				var items []string
 				var ob [][2][]byte
@@ -757,6 +814,9 @@ func (eng) execute(mode string, c *hx.Case) (*hx.Result, error) {
 		}
 		if replaced > 0 {
 			tags = append(tags, "zip:replaced")
+		}
+		if reranged {
+			tags = append(tags, "zip:iterator-ranged-again")
 		}
 		return &hx.Result{Term: "CZip " + hx.CoqList(terms, "zip_op"), Nontrivial: len(terms) >= 4 && reads > 0, Tags: append(tags, lenTag()), Observed: obs}, nil
 
@@ -917,6 +977,7 @@ func (eng) execute(mode string, c *hx.Case) (*hx.Result, error) {
 			univB[i] = []byte(k)
 		}
 		var pool []*ds.Set[string]
+		var sseqs []iter.Seq[string]
 		derived, spare := 0, false
 		for _, o := range ops {
 			pick := func(x uint64) int { return int(x % uint64(len(pool))) }
@@ -961,6 +1022,29 @@ func (eng) execute(mode string, c *hx.Case) (*hx.Result, error) {
 				pool = append(pool, pool[i].Diff(pool[j]))
 				derived++
 				add(fmt.Sprintf("PDiff %d %d", i, j), []int{i, j})
+			case "seq":
+				if len(pool) == 0 {
+					continue
+				}
+				i := pick(o.N)
+				sseqs = append(sseqs, pool[i].All())
+				add(fmt.Sprintf("PSeq %d", i), i)
+			case "range":
+				if len(sseqs) == 0 {
+					continue
+				}
+				k := len(sseqs) - 1
+				if o.N != 1000 {
+					k = int(o.N % uint64(len(sseqs)))
+				}
+				var got [][]byte
+				for v := range sseqs[k] {
+					got = append(got, []byte(v))
+					if o.M > 0 && uint64(len(got)) >= o.M {
+						break
+					}
+				}
+				add(fmt.Sprintf("PRange %d %d %s", k, o.M, bytesList(got)), got)
 			case "obs":
 				items := make([]string, len(pool))
 				var ob []any
@@ -993,6 +1077,7 @@ func (eng) execute(mode string, c *hx.Case) (*hx.Result, error) {
 
 	case "smap":
 		m := ds.NewSortedMap[string, uint64]()
+		var mseqs []iter.Seq2[string, uint64]
 		for _, o := range ops {
 			switch o.K {
 			case "set":
@@ -1023,6 +1108,27 @@ func (eng) execute(mode string, c *hx.Case) (*hx.Result, error) {
 					items = append(items, hx.CoqN(v))
 				}
 				add("MValues "+hx.CoqList(items, "N"), m.Values())
+			case "seq":
+				mseqs = append(mseqs, m.All())
+			case "range":
+				if len(mseqs) == 0 {
+					continue
+				}
+				k := len(mseqs) - 1
+				if o.N != 1000 {
+					k = int(o.N % uint64(len(mseqs)))
+				}
+				var items []string
+				for key, v := range mseqs[k] {
+					items = append(items, hx.CoqPair(hx.CoqBytes([]byte(key)), hx.CoqN(v)))
+					if o.M > 0 && uint64(len(items)) >= o.M {
+						break
+					}
+				}
+				if len(items) > 0 {
+					reads++
+				}
+				add(fmt.Sprintf("MRange %d %s", o.M, hx.CoqList(items, "bytes * N")), len(items))
 			case "all":
 				var items []string
 				for k, v := range m.All() {
